@@ -909,6 +909,16 @@ class Dir(Gen):
             stmts[k0][3]["rules"] = delta
             for fr in ([rule] if rule is not None else delta):
                 self.rule_witness[fr] = self.rule_witness.get(fr, 0) + 1
+            if n % 3 == 0:
+                # the same right-hand side through the reduction entry points (no target: sum / sum of all elements)
+                try:
+                    rr = self.render_reduction(self.k, "sum" if e.kind == "V" else "msum", [mk()])
+                except Unsupported:
+                    rr = None
+                if rr is not None:
+                    rr[2].update(family="rule", witness=None, rules=delta)
+                    stmts.append((self.k,) + rr)
+                    self.k += 1
             if len(stmts) >= per_case:
                 cases.append((init, stmts))
                 stmts, init = [], self.layout_rules()
